@@ -288,6 +288,16 @@ func c03World(cs *explore.Case, c *report.Collector, l *report.Local, bound int,
 	for i, q := range qs {
 		first[i] = run.CanonResult(run.Call(w, q))
 		l.Count("calls", 1)
+		// (b0) the result after the queries before it == the result on a decoder and path context
+		// that have never answered a query
+		pristine := run.CanonResult(run.Call(world.Build(cs.Spec()), q))
+		l.Count("calls", 1)
+		l.Count("history_transitions", 1)
+		if pristine != first[i] {
+			c.Add(&report.Violation{Clause: "history-dependence", Site: kindClass(q.Kind) + ":after-prior-queries", Check: "history", SchemaID: cs.Entry.ID, Files: cs.Files(), Query: report.J(q),
+				Detail: fmt.Sprintf("%s: result after %d earlier queries on the same path context differs from the result on a fresh one\n fresh: %s\n after: %s\nfile:\n%s", q, i, diffWindow(pristine, first[i]), diffWindow(first[i], pristine), cs.Text)})
+			first[i] = pristine
+		}
 		if instr.Available {
 			e.explore(q)
 		}
